@@ -657,7 +657,13 @@ func (c *Client) connectAndAuthenticate(ctx context.Context,
 		// problem but just a follow-up symptom. So we need to look if
 		// there's anything on the tempErrChan (which we write to when
 		// getting unexpected messages or errors from the server) that's
-		// more conclusive.
+		// more conclusive. The same is true if the stream error
+		// arrived while we were waiting for the challenge: the error
+		// was diverted to this subscription, so nobody else will
+		// re-connect the stream.
+		if errors.Is(err, ErrServerErrored) {
+			return sub, false, c.HandleServerShutdown(nil)
+		}
 		select {
 		case err := <-tempErrChan:
 			// Ah, so it's the server shutting down, so let's re-
@@ -727,6 +733,12 @@ func (c *Client) connectAndAuthenticate(ctx context.Context,
 		}
 
 	case err := <-tempErrChan:
+		// The stream broke down while we were waiting for the server's
+		// answer. As the error was diverted to us, it's our job to
+		// re-connect, which also subscribes this account again.
+		if err == ErrServerErrored {
+			return sub, false, c.HandleServerShutdown(nil)
+		}
 		return nil, false, fmt.Errorf("error during authentication "+
 			"when waiting for final step: %v", err)
 
